@@ -926,6 +926,15 @@ def scenarios(ctx_pid, quick):
         add('app', 'L1x4g2', [first, ('c1', {'slots': s_ovl})])
         add('app', 'L1x4g2', [('c1', {'slots': s_ovl}), first])
         add('app', 'L1x4g2', [('c1', {'slots': s_dis}), first, 'c4'])
+    # two application-placed ranks, one of which names a held core / GPU
+    s_of   = [app_slot('n0', [0]), app_slot('n0', [3])]
+    s_ol   = [app_slot('n0', [3]), app_slot('n0', [0])]
+    s_gof  = [app_slot('n0', [2], gpus=[0]), app_slot('n0', [3], gpus=[1])]
+    for first in ('c1', 'r2', 'g1'):
+        for sl in (s_of, s_ol, s_gof):
+            shp = 'r2g1' if sl is s_gof else 'r2'
+            add('app', 'L1x4g2', [first, (shp, {'slots': sl})])
+            add('app', 'L1x4g2', [first, (shp, {'slots': sl}), 'c1'])
     add('app', 'L2x4g2b', [('g1', {'slots': s_blk})])
     add('app', 'L3x2g1a', [('c1', {'slots': s_agt})])
 
